@@ -4,7 +4,8 @@ import GqlgenVerif.Model.Rewrite
 import GqlgenVerif.Model.RewriteSpec
 /-!
 Line-protocol driver for C19. Every input line is `<op> <json>`, the JSON being one observation of the Go
-harness (go/harness/c19): `{layout, before:[file], schema:[obj], after:[file]}`.
+harness (go/harness/c19): `{layout, before:[file], schema:[obj], after:[file], names:[{name, goPrivate, goPublic, title}]}`
+(`names`: what the real `templates.ToGoPrivate`, `templates.ToGo`, `cases.Title` return for each type name).
 
   regen <obs>  → JSON: the model's prediction of the regenerated files (methods, objects, reserved and
                  pruned imports, leftover text, how the WARNING block is written, lexical validity of the tail)
@@ -41,7 +42,11 @@ def toField (j : Json) : Field := ⟨str j "goName", str j "name", str j "file",
 def toObj (j : Json) : Obj := ⟨str j "name", str j "file", (arr j "fields").map toField⟩
 
 def toCfg (j : Json) : Cfg :=
-  { layout := if str j "layout" == "single" then .single else .follow, omitTemplateComment := boolD j "omitTemplateComment" false }
+  let tbl : List (String × Mangled) := (arr j "names").map fun n => (str n "name", ⟨str n "goPrivate", str n "goPublic", str n "title"⟩)
+  { layout := if str j "layout" == "single" then .single else .follow, omitTemplateComment := boolD j "omitTemplateComment" false
+    names := fun s => match tbl.find? (·.1 == s) with
+      | some e => e.2
+      | none => ⟨lcFirst s, ucFirst s, ucFirst s⟩ }
 
 def s (t : Text) : Json := Json.str (String.ofList t)
 
@@ -74,6 +79,8 @@ def regen (j : Json) : Json :=
       ("pruned", Json.arr ((prune used nf.imports).map importJson).toArray),
       ("methods", Json.arr (nf.methods.map methodJson).toArray),
       ("objects", Json.arr (nf.objects.map Json.str).toArray),
+      ("accessors", Json.arr (nf.objects.map fun o => Json.str (accessorName cfg o)).toArray),
+      ("structs", Json.arr (nf.objects.map fun o => Json.str (structTypeName cfg o)).toArray),
       ("remaining", s nf.remaining),
       ("remMode", modeOf nf.remaining),
       ("validTail", validTail (trailer trailerMode nf.remaining))]).toArray
@@ -96,7 +103,12 @@ def genJson : Json :=
   Json.mkObj [("bodyStartOff", bodyStartOff), ("bodyEndOff", bodyEndOff), ("skipCopied", skipCopied),
               ("skipToks", Json.arr (skipToks.map Json.str).toArray), ("declSep", declSep),
               ("trimRemaining", trimRemaining), ("trailerMode", toString (repr trailerMode)),
-              ("aliasOmitRule", toString (repr aliasOmitRule))]
+              ("aliasOmitRule", toString (repr aliasOmitRule)),
+              ("lookupRecv", Json.arr #[toString (repr lookupRecvSingle), toString (repr lookupRecvFollow)]),
+              ("markStruct", Json.arr #[toString (repr markStructSingle), toString (repr markStructFollow)]),
+              ("lookupAccessor", Json.arr #[toString (repr lookupAccessorSingle), toString (repr lookupAccessorFollow)]),
+              ("emitRecv", toString (repr emitRecv)), ("emitAccessor", toString (repr emitAccessor)),
+              ("emitAccessorRet", toString (repr emitAccessorRet)), ("emitStruct", toString (repr emitStruct))]
 
 def step (line : String) : String :=
   let (op, rest) := match line.splitOn " " with
